@@ -301,7 +301,7 @@ impl CompactionWorker {
                 "Compaction thread found an immutable memtable to compact. Proceeding with \
                 memtable compaction."
             );
-            CompactionWorker::compact_memtable(db_state, db_fields_guard);
+            CompactionWorker::compact_memtable(db_state, db_fields_guard, false);
             return;
         }
 
@@ -479,6 +479,7 @@ impl CompactionWorker {
     fn compact_memtable(
         db_state: &PortableDatabaseState,
         db_fields_guard: &mut MutexGuard<GuardedDbFields>,
+        is_table_compaction_in_progress: bool,
     ) {
         assert!(db_fields_guard.maybe_immutable_memtable.is_some());
 
@@ -486,11 +487,24 @@ impl CompactionWorker {
         let mut change_manifest = VersionChangeManifest::default();
         let base_version = db_fields_guard.version_set.get_current_version();
         let immutable_memtable = db_fields_guard.maybe_immutable_memtable.clone().unwrap();
+        /*
+        The level for the new table file is picked by looking at the files of the current version.
+        A table compaction that is in progress will add files that are not part of any version
+        yet and its outputs can span key ranges that none of its inputs cover e.g. the gap between
+        two input files. A memtable that is flushed in the middle of such a compaction could be
+        placed right into that range at the compaction's output level and the compaction would
+        then create an overlap when it installs its results. Level 0 is always safe.
+        */
+        let maybe_base_version = if is_table_compaction_in_progress {
+            None
+        } else {
+            Some(&base_version)
+        };
         let write_table_result = DB::convert_memtable_to_file(
             db_state,
             db_fields_guard,
             Arc::clone(&immutable_memtable),
-            Some(&base_version),
+            maybe_base_version,
             &mut change_manifest,
         );
         db_fields_guard.version_set.release_version(base_version);
@@ -645,7 +659,11 @@ impl CompactionWorker {
                         let memtable_compaction_start = Instant::now();
                         let mut db_mutex_guard = db_state.guarded_db_fields.lock();
                         if db_mutex_guard.maybe_immutable_memtable.is_some() {
-                            CompactionWorker::compact_memtable(db_state, &mut db_mutex_guard);
+                            CompactionWorker::compact_memtable(
+                                db_state,
+                                &mut db_mutex_guard,
+                                true,
+                            );
 
                             // Notify waiting writers if there are any
                             db_state.background_work_finished_signal.notify_all();
